@@ -66,6 +66,11 @@ def run_shard(prop: str, tier: str, seed: int, shard: int, nshards: int, replay=
             mod.replay(ctx, replay)
         else:
             mod.run(ctx)
+    except Exception as exc:  # harness crash: keep what was observed, never call it "held"
+        import traceback
+
+        traceback.print_exc()
+        ctx.inconclusive_because(f"harness_error:{type(exc).__name__}:{str(exc)[:120]}")
     finally:
         counts = reach.stop()
     anchors = tuple(getattr(mod, "ANCHORS", ()))
